@@ -1,4 +1,4 @@
-import GeomV.C16.ProofsStruct
+import GeomV.C16.ProofsSchedule
 import GeomV.C16.EndToEnd
 /-!
 # C16 — the struct path end to end ON THE BYTES
@@ -86,9 +86,102 @@ theorem C16_struct_bytes_roundtrip (sfs : List SField) (e : EncS) (henc : newEnc
   rw [hrows]
   exact hread
 
+/-! ## any assignment of writer methods to the records, any reading schedule - through the bytes -/
+
+/-- record `i` is written with `Encode` (`vias[i] = true`) or with `EncodeFields(g, vals…)` -/
+def mixedCalls : List Bool → List (Geom UInt64 × List Val) → List CallB
+  | via :: vias, r :: recs => ⟨via, geom2ShpB r.1, r.2⟩ :: mixedCalls vias recs
+  | _, _ => []
+
+theorem mixedCalls_rows (fs : List Field) (S : Geom UInt64 → Shape UInt64) :
+    ∀ (vias : List Bool) (recs : List (Geom UInt64 × List Val)), vias.length = recs.length →
+      (∀ r ∈ recs, (geom2ShpB r.1).map BShape.toShape = .ok (S r.1) ∧ (writeStrict fs r.2).2 = true ∧
+        writeLenient fs r.2 = (writeStrict fs r.2).1 ∧ r.2.length ≤ fs.length) →
+      (mixedCalls vias recs).filterMap (rowOfCall fs) = recs.map (fun r => (S r.1, (writeStrict fs r.2).1)) ∧
+      (mixedCalls vias recs).map (resOfCall fs) = recs.map (fun _ => WRes.ok) ∧
+      NoLeftOver fs (mixedCalls vias recs)
+  | [], [], _, _ => ⟨rfl, rfl, by intro c hc; simp [mixedCalls] at hc⟩
+  | [], _ :: _, h, _ => by simp at h
+  | _ :: _, [], h, _ => by simp at h
+  | via :: vias, r :: recs, hlen, h => by
+    obtain ⟨hg, hst, hlen', hle⟩ := h r (by simp)
+    obtain ⟨ih1, ih2, ih3⟩ := mixedCalls_rows fs S vias recs (by simpa using hlen) (fun r' hr' => h r' (by simp [hr']))
+    cases hb : geom2ShpB r.1 with
+    | error f => rw [hb] at hg; simp [Except.map] at hg
+    | ok s =>
+      rw [hb] at hg
+      simp only [Except.map, Except.ok.injEq] at hg
+      refine ⟨?_, ?_, ?_⟩
+      · cases via <;> simp [mixedCalls, rowOfCall, hb, hg, hlen', ih1]
+      · cases via <;> simp [mixedCalls, resOfCall, hb, hst, ih2]
+      · intro c hc hvia
+        simp only [mixedCalls, List.mem_cons] at hc
+        rcases hc with rfl | hc
+        · exact hle
+        · exact ih3 c hc hvia
+
+/-- **C16_written_bytes_schedule** (the headline THROUGH THE BYTES with the values determined, any writer assignment,
+any reading schedule): under the hypotheses of `C16_struct_file_roundtrip`, write record `i` with `Encode` or with
+`EncodeFields` as `vias[i]` says through go-shp's byte-level writer, `Close()`, parse the `.shp`/`.dbf` bytes with go-shp's
+byte-level reader (decidable size bounds `FileOK`): every call returned nil; the file `F` read is the SAME whatever the
+assignment; the `DecodeRow` loop into the reader type `rfs` returns exactly the rows of `C16_struct_file_roundtrip`; and ANY
+reading schedule `rcalls` on one Decoder (hypotheses of `C16_schedule_written`) returns one row per record, in call order,
+no panic, no error, row `i` from record `i`'s own shape and cells. -/
+theorem C16_written_bytes_schedule (sfs : List SField) (e : EncS) (henc : newEncoder sfs = .ok e)
+    (hp : ∀ sf ∈ attrsOf sfs, Plain (effName sf))
+    (hd : ∀ a b (ha : a < (attrsOf sfs).length) (hb : b < (attrsOf sfs).length),
+      keyOf (attrsOf sfs)[a] = keyOf (attrsOf sfs)[b] → a = b)
+    (recs : List (Geom UInt64 × List Val)) (N : Geom UInt64 → Geom UInt64)
+    (hsup : ∀ r ∈ recs, Spec.normal ptEqBits r.1 = some (N r.1) ∧ r.1 ≠ .nil)
+    (hl : ∀ r ∈ recs, e.fields.length = r.2.length)
+    (hfit : ∀ r ∈ recs, ∀ i (hi : i < e.fields.length) (hv : i < r.2.length) (ha : i < (attrsOf sfs).length),
+      writeAttr e.fields[i] r.2[i] = some (render e.fields[i] r.2[i]) ∧ ValOK e.fields[i] r.2[i] ∧
+      valKind r.2[i] = (attrsOf sfs)[i].kind)
+    (rfs : List RField) (reuse : Bool)
+    (hrd : ∀ rf ∈ rfs, match rf with
+      | .geom _ _ k => ∀ r ∈ recs, GeomFieldOK k (N r.1)
+      | .attr sf col => ∃ (h : col < (attrsOf sfs).length), sf.kind = (attrsOf sfs)[col].kind ∧
+          Matches (attrsOf sfs) sf col)
+    (rcalls : List RCall) (hne : rcalls ≠ [])
+    (hrc : ∀ c ∈ rcalls, match c with
+      | .s rfs _ => ∀ rf ∈ rfs, (match rf with
+        | .geom _ _ k => ∀ r ∈ recs, GeomFieldOK k (N r.1)
+        | .attr sf col => ∃ (h : col < (attrsOf sfs).length), sf.kind = (attrsOf sfs)[col].kind ∧
+            Matches (attrsOf sfs) sf col)
+      | .f names => ∀ n ∈ names, ∃ j, ∃ (h : j < (attrsOf sfs).length), lower n = keyOf (attrsOf sfs)[j])
+    (vias : List Bool) (hv : vias.length = recs.length)
+    (hok : FileOK e.shpType e.fields (mixedCalls vias recs)) :
+    ∃ F, fileOfBytes (close e.shpType e.fields (runB e.shpType e.fields (mixedCalls vias recs)).1).shp
+        (close e.shpType e.fields (runB e.shpType e.fields (mixedCalls vias recs)).1).dbf = some F ∧
+      F = ⟨e.shpType, e.fields, (writeAllS ptEqBits e recs).1⟩ ∧
+      (runB e.shpType e.fields (mixedCalls vias recs)).2 = recs.map (fun _ => WRes.ok) ∧
+      readS 0 F (rfs.map RField.sf) reuse = ⟨recs.map (fun r => rfs.map (backField N r)), false, false⟩ ∧
+      ∃ rows, readM 0 F (rcalls.map RCall.call) = ⟨rows, false, false⟩ ∧ rows.length = recs.length ∧
+        RowsOf 0 (fileKeys e.fields) geomOf (rcalls.map RCall.call) F.rows 0 rows := by
+  obtain ⟨S, hw, hS, _⟩ := struct_file_core ptEqBits 0 sfs e henc hp hd recs N hsup hl hfit rfs reuse hrd
+  obtain ⟨_, hread⟩ := C16_struct_file_roundtrip ptEqBits 0 sfs e henc hp hd recs N hsup hl hfit rfs reuse hrd
+  obtain ⟨_, rows, hm1, hm2, hm3⟩ := C16_schedule_written ptEqBits 0 sfs e henc hp hd recs N hsup hl hfit rcalls hne hrc
+  have hlenA : e.fields.length = (attrsOf sfs).length := by rw [C16_columns sfs e henc]; simp
+  obtain ⟨hrows, hres, hno⟩ := mixedCalls_rows e.fields S vias recs hv (fun r hr =>
+    ⟨by rw [toShape_geom2ShpB]; exact (hS r hr).1, (hS r hr).2,
+     writeLenient_eq_strict e.fields r.2 (hl r hr) (fun i hi hv => (hfit r hr i hi hv (hlenA ▸ hi)).1),
+     Nat.le_of_eq (hl r hr).symm⟩)
+  obtain ⟨h1, h2⟩ := C16_bytes_in_order e.shpType e.fields (mixedCalls vias recs) hok hno
+  have hfile : (⟨e.shpType, e.fields, (mixedCalls vias recs).filterMap (rowOfCall e.fields)⟩ : FileM UInt64)
+      = ⟨e.shpType, e.fields, (writeAllS ptEqBits e recs).1⟩ := by rw [hrows, hw]
+  refine ⟨_, h1, hfile, by rw [h2, hres], ?_, ?_⟩
+  · rw [hfile]; exact hread
+  · rw [hfile]; exact ⟨rows, hm1, hm2, hm3⟩
+
 /-- non-vacuity of the additional hypothesis `FileOK` (the others are those of `C16_struct_file_roundtrip`, shown to hold
 together in `StructExample`): the example's columns and two line-string records -/
 example : FileOK StructExample.enc.shpType StructExample.enc.fields (encodeCalls
+    [(.lineString [⟨0, 0⟩, ⟨4607182418800017408, 4607182418800017408⟩], [.int 7, .float 4626744929681408000, .str [97, 108, 112, 104, 97]]),
+     (.lineString [], [.int (-8), .float 0, .str []])]) := by
+  decide +kernel
+
+/-- the same for a mixed assignment (`Encode`, then `EncodeFields`) -/
+example : FileOK StructExample.enc.shpType StructExample.enc.fields (mixedCalls [true, false]
     [(.lineString [⟨0, 0⟩, ⟨4607182418800017408, 4607182418800017408⟩], [.int 7, .float 4626744929681408000, .str [97, 108, 112, 104, 97]]),
      (.lineString [], [.int (-8), .float 0, .str []])]) := by
   decide +kernel
